@@ -112,7 +112,7 @@ def bat_entry(state, mb):
 def build(blocks, *, block_size, sector_size=512, disk_size, has_parent=False, locator=None, bitmaps=None, seqs=(5, 6),
           data_base_mb=None, file_id=0, sigs=None, name=None, disk_id=None, phys_sector=4096, bat_mb=3, meta_mb=2,
           omit_items=(), omit_regions=(), locator_type=G_VHDX_LOCATOR, reserved_bits=0, leave_alloc=False, locator_layout="pairs",
-          layout="std"):
+          layout="std", extra_items=()):
     """blocks: list over real payload blocks of (state, position|None); position = index of the block-sized slot in the
     data area.  bitmaps: {chunk_index: (position_mb_slot, bytes)} for sector-bitmap blocks (differencing).
     layout: where the regions lie relative to the payload - "std" (metadata, BAT, then payload blocks), "regions-last"
@@ -173,6 +173,7 @@ def build(blocks, *, block_size, sector_size=512, disk_size, has_parent=False, l
     for it in allitems:
         if it[0] not in omit_items:
             items.append(it)
+    items += list(extra_items)   # (guid, data, flags): e.g. items this reader does not know, with or without IsRequired
     meta = metadata_region(items, sig=sigs.get("metadata", b"metadata"))
     regs = [(G_BAT, bat_mb * MB, bat_len, 1), (G_META, meta_mb * MB, MB, 1)]
     regs = [r for r in regs if r[0] not in omit_regions]
